@@ -125,6 +125,25 @@ def verify(body, inputs_of=None, replay=None, check_side=True, timeout_ms=30000,
             if check_side:
                 for (label, term, pclen) in c.side:
                     goals.append(Goal("side:" + label, sym.SBool(term)))
+            else:
+                # contracts that take "denominators are non-zero" as a requires (check_side=False) must still not divide by a
+                # quantity that is zero for EVERY input: all cross-multiplied goals would read 0 == 0.  A divisor whose normal
+                # form is the zero polynomial is reported as a failed goal (the real code divides by zero there).
+                from . import poly as _poly
+                seen_div = set()
+                for (label, term, pclen) in c.side:
+                    if label != "div-by-zero" or term.get_id() in seen_div or len(seen_div) > 400:
+                        continue
+                    seen_div.add(term.get_id())
+                    try:
+                        den = term.children()[0].children()[0] if z3.is_not(term) else term.children()[0]
+                        # (a literal zero divisor is a path the contract itself deals with - e.g. "nothing is transmitted" - not
+                        # a symbolic expression that cancels)
+                        from .numeval import free_consts as _fc
+                        if z3.is_arith(den) and _fc([den]) and _poly.is_zero(den, limit=20000):
+                            goals.append(Goal("division by a quantity that is zero for every input: %s" % str(den)[:120].replace("\n", " "), False))
+                    except Exception:
+                        pass
             for gl in goals:
                 res["goals"] += 1
                 cond = gl.cond
@@ -188,6 +207,18 @@ def verify(body, inputs_of=None, replay=None, check_side=True, timeout_ms=30000,
     elif unknowns:
         res["status"] = "unknown"
         res["unknowns"] = unknowns[:5]
+    elif replay is not None and os.environ.get("PYVC_REPLAY_SELFTEST", "1") != "0":
+        # every goal is proved: the replay function, run on the same tree with an empty counter-model (generic values), must NOT
+        # report a confirmed violation - otherwise it would turn an honest failure of the prover into a claimed defect
+        try:
+            probe = replay({})
+        except Exception:
+            probe = None
+        if isinstance(probe, dict) and probe.get("confirmed"):
+            res["status"] = "error"
+            res["error"] = "replay self-test: the replay function confirms a violation although the obligation is proved: %r" % (probe,)
+        else:
+            res["replay_self_test"] = "passed" if isinstance(probe, dict) else "not applicable (needs a counter-model)"
     return res
 
 
